@@ -171,6 +171,7 @@ def check(prop, tier, seed):
     run.sample({"token_kinds": mid[0]["w"], "src": mid[1], "predicted": {"t": mid[0]["t"], "at": mid[0]["at"]}})
     # longer seeded random files: valid skeletons with one corruption, judged by TLC over the spec tables (DriverJudge with the grammar of record)
     long_cases(run, tier, rng, wd, kg)
+    ast_conformance(run, tier, rng, wd)
     run.rule = ("distinct (outcome, offending token kind, two preceding token kinds) classes among the replayed witnesses of all parser configurations "
                 "reachable within MAXLEN tokens; evaluations = rendered sources run through the real generate")
     run.notes["maxlen"] = maxlen
@@ -319,8 +320,96 @@ def long_cases(run, tier, rng, wd, kg):
     run.notes["long_files_judged"] = len(recs)
 
 
+FIXED_SPELLING = {"Underscore": "_", "StartKw": "start", "StructKw": "struct", "EnumKw": "enum", "TerminalKw": "terminal", "Colon": ":",
+                  "DoubleColon": "::", "Comma": ",", "LParen": "(", "RParen": ")", "LCurly": "{", "RCurly": "}", "LAngle": "<", "RAngle": ">"}
+
+
+def ast_records(srcs):
+    """AstJudge records (tokens of the real tokenizer + the validated file of the real pipeline) for the accepted ones of srcs."""
+    import re
+    resps = common.kv("gen", [{"id": i, "src": s, "want": ["tokens", "grammar"]} for i, s in enumerate(srcs)], timeout=3000)
+    recs = []
+    for i, (s, o) in enumerate(zip(srcs, resps)):
+        if "grammar" not in o or "tokens" not in o:
+            continue
+        g = o["grammar"]
+        rec_g = {"start": g["start"], "tenum": g["tenum"], "tattrs": g["tattrs"], "ts": g["ts"], "nts": g["nts"],
+                 "ttypes": [re.findall(r"[A-Za-z_][A-Za-z0-9_]*|::|[<>,()]", t) for t in g["ttypes"]],
+                 "rules": [{"lhs": x["lhs"], "ctor": x["ctor"], "vname": x["vname"] or "", "attrs": x["attrs"], "style": x["style"],
+                            "rhs": x["rhs"], "mask": x["mask"], "fnames": [n or "" for n in x["fnames"]]} for x in g["rules"]]}
+        recs.append({"id": i, "kinds": ["$" + t["k"] for t in o["tokens"]],
+                     "tx": [t["text"] if t["text"] is not None else FIXED_SPELLING[t["k"]] for t in o["tokens"]], "g": rec_g})
+    return recs
+
+
+def ast_conformance(run, tier, rng, wd):
+    """(C) for the stages tokens -> tree -> abstract file -> validated file: for accepted files the tokens of the real
+    tokenizer and the validated file the real pipeline built are handed to TLC (AstJudge), which parses the kinds with
+    the LALR(1) tables of the grammar of record, reads the declarations off the tree (Ast.tla) and compares. A token
+    sequence of an accepted file that is not a sentence is a C09 violation; any other difference is reported as drift
+    (the properties that depend on it - C01, C02, C06, C12, C13, C17 - decide for themselves against the declared
+    grammar)."""
+    import re
+    import pipeline, paytypes
+    srcs = []
+    for path in pipeline.repo_grammar_files():
+        srcs.append(open(path, encoding="utf-8").read())
+    for _ in range(120 if tier == "quick" else 4000):
+        G = pipeline.random_grammar(rng, max_nts=5, max_ts=4, max_rules=9, max_rhs=5)
+        pres = grammar.present(G, rng)
+        srcs.append(grammar.render(G, pres))
+    for _ in range(30 if tier == "quick" else 600):
+        srcs.append(paytypes.grammar_for([paytypes.random_type(rng, rng.randint(1, 4), False) for _ in range(rng.randint(1, 6))], rng))
+    recs = ast_records(srcs)
+    if not recs:
+        log("  note: no accepted file for the AST conformance step")
+        return
+    shards = max(1, min(6, len(recs) // 40))
+
+    def one(k):
+        opath = os.path.join(wd, "ast_obs_%d.ndjson" % k)
+        with open(opath, "w") as f:
+            for rec in recs[k::shards]:
+                f.write(json.dumps(rec) + "\n")
+        return common.tlc("AstJudge", env={"OBS": opath}, workers=1, timeout=6000, xmx="3g")
+    import concurrent.futures as cf
+    with cf.ThreadPoolExecutor(max_workers=shards) as ex:
+        results = list(ex.map(one, range(shards)))
+    verdicts = {}
+    for r in results:
+        if r.error:
+            raise ToolError("AstJudge failed:\n" + r.error)
+        run.add_tlc(r)
+        for j in r.tagged("AJUDGE"):
+            verdicts[j["id"]] = j
+    if len(verdicts) != len(recs):
+        raise ToolError("AstJudge judged %d of %d files" % (len(verdicts), len(recs)))
+    drift = 0
+    for rec in recs:
+        j = verdicts[rec["id"]]
+        run.evaluations += 1
+        run.traces += 1
+        if j["ok"]:
+            run.nontrivial.add(("ast", j["items"], len(rec["kinds"]) // 8))
+            continue
+        if j["why"].startswith("SPEC"):
+            raise ToolError("Ast.tla violates its own law on %r" % srcs[rec["id"]][:300])
+        if "not a sentence" in j["why"]:
+            run.violation({"kind": "frontend-accepts-non-sentence", "why": "C09: " + j["why"], "src": srcs[rec["id"]], "token_kinds": rec["kinds"],
+                           "judged_by": "spec/AstJudge.tla (LR1 tables of KikiSyntax!KikiG)"})
+            continue
+        drift += 1
+        if drift <= 3:
+            print("CONFORMANCE-DRIFT property=C09 %s: %s" % (j["why"], json.dumps(srcs[rec["id"]])[:300]))
+    run.notes["files_whose_declarations_were_compared"] = len(recs)
+    run.notes["ast_drift"] = drift
+
+
 def replay(prop, path):
     case = json.load(open(path))
+    if case.get("kind") == "frontend-accepts-non-sentence":
+        log("re-run ./check C09 quick (the case needs the AstJudge step)")
+        return 0
     if "src" not in case:
         log("table-level finding: re-run ./check C09 quick")
         return 0
